@@ -633,6 +633,200 @@ def run_scenario(ctx, sc, acc):
         publish.DEFAULT_MUTABLE_MAX_SEGMENT_SIZE = saved_seg
 
 
+
+# ----------------------------------------------------------------------------- (d) test vectors on the wire
+
+WIRE_CORPUS = [
+    # (offset, length, specimen hex, share contents hex or None = no such share)
+    (0, 1, "", None), (0, 1, "", ""), (0, 1, "", "00"), (0, 1, "", "0102030405"),          # "must not exist yet"
+    (0, 4, "01020304", "0102030405"), (0, 4, "01020304", "0902030405"), (0, 4, "01020304", None), (0, 4, "01020304", "0102"),
+    (2, 2, "0304", "0102030405"), (0, 0, "", "0102"), (7, 3, "", "0102"),
+]
+
+
+def gen_wire(rng):
+    share = None if rng.random() < 0.25 else rng.randbytes(rng.choice([0, 1, 5, 60]))
+    r = rng.random()
+    if r < 0.3:
+        return (0, 1, "", None if share is None else share.hex())
+    if r < 0.7 and share:
+        n_ = rng.randrange(1, len(share) + 1)
+        spec = bytearray(share[:n_])
+        if rng.random() < 0.4:
+            spec[rng.randrange(n_)] ^= 1
+        return (0, n_, bytes(spec).hex(), share.hex())
+    return (rng.randrange(0, 8), rng.randrange(0, 6), rng.randbytes(rng.randrange(0, 4)).hex(),
+            None if share is None else share.hex())
+
+
+def run_wire(ctx, cases):
+    """the tuples the real storage_client glue (Foolscap and HTTP) builds for a proxy's test vector, and the verdict of a
+    real storage server on that wire vector, vs the model (wireOf / passes)"""
+    import grid
+    from twisted.internet import defer
+    from allmydata import storage_client as SC
+    from allmydata.storage import http_client as HC
+    lines, impl, jc = [], [], []
+    secrets = (b"w" * 32, b"r" * 32, b"c" * 32)
+    cap = {}
+
+    class Rref:
+        def callRemote(self, name, *a):
+            cap["foolscap"] = a[2]
+            return defer.succeed((True, {}))
+
+    async def fake_rtw(self_, si, we, lr, lc, twv, rv):
+        cap["http"] = twv
+
+        class Res:
+            success, reads = True, {}
+        return Res()
+    orig_rtw = HC.StorageClientMutables.read_test_write_chunks
+    HC.StorageClientMutables.read_test_write_chunks = lambda self_, *a, **k: defer.ensureDeferred(fake_rtw(self_, *a, **k))
+    try:
+        with grid.Runtime(seed=0, policy="fifo") as rt:
+            g = grid.Grid(grid.fresh_dir("c47w"), rt, num_servers=1, num_clients=0, k=1, happy=1, n=1)
+            try:
+                for idx, (off, ln, spec, share) in enumerate(cases):
+                    case = {"kind": "wire", "c": [off, ln, spec, share]}
+                    specb = bytes.fromhex(spec)
+                    tw = {0: ([(off, ln, specb)], [], None)}
+                    cap.clear()
+                    SC._StorageServer(lambda: Rref()).slot_testv_and_readv_and_writev(b"s" * 16, secrets, tw, [])
+                    SC._HTTPStorageServer.from_http_client(None).slot_testv_and_readv_and_writev(b"s" * 16, secrets, tw, [])
+                    wire = cap["foolscap"][0][0][0]
+                    hv = cap["http"][0].test_vectors[0]
+                    http_t = (hv.offset, hv.size, hv.specimen)
+                    # a real storage server's verdict on the wire vector
+                    si = b"w%015d" % idx
+                    ss = g.storage[0]
+                    if share is not None:
+                        ss.slot_testv_and_readv_and_writev(si, secrets, {0: ([], [(0, bytes.fromhex(share))], None)}, [])
+                    verdict = ss.slot_testv_and_readv_and_writev(si, secrets, {0: ([tuple(wire)], [], None)}, [])[0]
+                    impl.append("%d,%d,%s,%s;%s" % (wire[0], wire[1], wire[2].decode(), mc.hx(wire[3]), "T" if verdict else "F"))
+                    lines.append("testv %d %d %s %s" % (off, ln, spec or "-", "N" if share is None else (share or "-")))
+                    jc.append(case)
+                    ctx.case(("wire", off, ln, spec, share))
+                    if http_t != (off, ln, specb):
+                        ctx.violation("the HTTP client turns the test vector (%d, %d, %r) into %r" % (off, ln, specb, http_t), case,
+                                      "http-test-vector-altered")
+                    # statement: a write succeeds only if the share still holds what the publisher saw, or does not exist:
+                    # the must-not-exist vector must fail on every non-empty share, a checkstring vector on any other content
+                    if (off, ln, spec) == (0, 1, "") and share not in (None, "") and verdict:
+                        ctx.violation("the 'share must not exist yet' test vector went out as %r and PASSES on an existing "
+                                      "%d-byte share" % (tuple(wire), len(share) // 2), case, "must-not-exist-vector-passes-on-share")
+                    if off == 0 and ln == len(specb) > 0 and verdict and (share is None or bytes.fromhex(share)[:ln] != specb):
+                        ctx.violation("a checkstring test vector passes on a share that does not start with it", case,
+                                      "checkstring-vector-passes-on-other-share")
+            finally:
+                g.close()
+    finally:
+        HC.StorageClientMutables.read_test_write_chunks = orig_rtw
+    ctx.compare("test vectors: the 4-tuple storage_client._StorageServer puts on the wire and a real storage server's verdict "
+                "on it vs wireOf / passes", jc, impl, ctx.model(lines))
+
+
+# ----------------------------------------------------------------------------- (e) partitioned writers with stale maps
+
+def gen_partition(rng):
+    S = rng.randrange(3, 7)
+    k = rng.randrange(1, 3)
+    n = rng.randrange(max(2 * k, 2), max(2 * k, min(S, 6)) + 1)
+    return {"family": "partition", "servers": S, "k": k, "n": n, "fmt": rng.choice("sm"), "sched": rng.randrange(1 << 30),
+            "policy": rng.choice(["fifo", "random", "lifo"]), "split": rng.randrange(1 << 16)}
+
+
+PARTITION_CORPUS = [
+    {"family": "partition", "servers": 4, "k": 2, "n": 4, "fmt": "s", "sched": 7, "policy": "fifo", "split": 0},
+    {"family": "partition", "servers": 4, "k": 2, "n": 4, "fmt": "m", "sched": 7, "policy": "fifo", "split": 0},
+    {"family": "partition", "servers": 5, "k": 1, "n": 4, "fmt": "s", "sched": 8, "policy": "random", "split": 5},
+]
+
+
+def run_partition(ctx, sc):
+    """Writer A surveys while it reaches only some servers; writer B (same cap) reaches only the others and publishes;
+    the partition heals; A publishes with its stale servermap.  Statement: A may report success only if no unexpected
+    version was encountered -- it must not replace a share holding a version its servermap did not contain and still say
+    success; and B's successfully reported version is not silently lost."""
+    import grid
+    from allmydata.mutable.publish import MutableData
+    from allmydata.mutable.common import MODE_WRITE
+    from allmydata.interfaces import SDMF_VERSION, MDMF_VERSION
+    case = {"kind": "scenario", "sc": sc}
+    k, n = sc["k"], sc["n"]
+    try:
+        with grid.Runtime(seed=sc["sched"], policy=sc["policy"]) as rt:
+            g = mc.make_grid("c47p", rt, sc["servers"], 2, k, n)
+            sidx = mc.server_number(g)
+            try:
+                nodeA = rt.wait(g.clients[0].create_mutable_file(
+                    MutableData(b"version one " * 20), version=MDMF_VERSION if sc["fmt"] == "m" else SDMF_VERSION,
+                    unique_keypair=mc.keypair()))
+                nodeB = g.clients[1].create_node_from_uri(nodeA.get_uri())
+                si = nodeA.get_storage_index()
+                holders = sorted(set(i for (i, _sh) in mc.disk_state(g, si)))
+                # split the share-holding servers into two sides, each with >= k share numbers if possible
+                order = holders[sc["split"] % len(holders):] + holders[:sc["split"] % len(holders)]
+                sideA = set(order[:max(1, len(order) // 2)])
+                sideB = set(g.wrappers) - sideA
+
+                def partition(reachable):
+                    for i, w in g.wrappers.items():
+                        w.fault = None if i in reachable else (lambda methname, args, kwargs: "error")
+                partition(sideA)
+                try:
+                    smA = rt.wait(nodeA.get_servermap(MODE_WRITE))
+                except Exception as e:
+                    ctx.count("partition-A-survey-error:" + mc.exc_name(e))
+                    return
+                believed = {(sidx(s), sh): (v[0], v[1]) for (s, sh), (v, _t) in smA.get_known_shares().items()}
+                partition(sideB)
+                try:
+                    rt.wait(nodeB.overwrite(MutableData(b"written by B " * 20)))
+                    b_ok = True
+                except grid.Stuck:
+                    raise
+                except Exception as e:
+                    b_ok = False
+                    ctx.count("partition-B-error:" + mc.exc_name(e))
+                partition(set(g.wrappers))
+                before = {key: cs and cs[1:3] for key, cs in mc.disk_state(g, si).items()}
+                b_version = None
+                if b_ok:
+                    newer = [v for v in before.values() if v and v not in believed.values()]
+                    b_version = newer[0] if newer else None
+                try:
+                    rt.wait(nodeA.upload(MutableData(b"written by A " * 20), smA))
+                    a_result = "success"
+                except grid.Stuck:
+                    raise
+                except Exception as e:
+                    a_result = mc.exc_name(e)
+                after = {key: cs and cs[1:3] for key, cs in mc.disk_state(g, si).items()}
+                replaced_unexpected = sorted(key for key, new in after.items()
+                                             if before.get(key) is not None and before[key] != new and believed.get(key) != before[key])
+                ctx.count("partition-%s-A:%s" % ("B-ok" if b_ok else "B-failed", a_result))
+                ctx.case(("partition", sc["fmt"], k, n, sc["servers"], b_ok, a_result, len(replaced_unexpected)))
+                if a_result == "success" and replaced_unexpected:
+                    ctx.violation("a publish with a stale servermap reported success although it replaced share(s) %r that held a "
+                                  "version its servermap did not contain" % replaced_unexpected, case,
+                                  "success-despite-unexpected-version-on-disk")
+                if b_version is not None and a_result != "UncoordinatedWriteError":
+                    left = len({sh for (i, sh), v in after.items() if v == b_version})
+                    if left < k:
+                        ctx.violation("B's successfully reported version is left with %d < k shares after A's publish, which "
+                                      "ended with %s (no UncoordinatedWriteError)" % (left, a_result), case,
+                                      "successful-publish-silently-replaced")
+            finally:
+                g.close()
+    except grid.Stuck:
+        ctx.count("grid-stuck")
+    except Exception:
+        import traceback
+        ctx.disagree("partition scenario could not be driven to the end", case, traceback.format_exc()[-800:], None)
+        ctx.count("grid-harness-exception")
+
+
 CORPUS = [
     {"k": 2, "cs": 7, "vi": True, "writers": [(0, 0), (1, 1), (2, 2)],
      "evs": [("a", 1, 1, True, [(1, 3), (2, 7)]), ("p", 2, 2), ("a", 0, 0, True, [(0, 3)])]},
@@ -712,6 +906,12 @@ def run(ctx):
             pubs = [untuple_case(c["c"])]
         elif c.get("kind") == "goal":
             goals = [c["c"]]
+        elif c.get("kind") == "wire":
+            run_wire(ctx, [tuple(c["c"])])
+            return
+        elif c.get("kind") == "scenario" and c["sc"].get("family") == "partition":
+            run_partition(ctx, c["sc"])
+            return
         elif c.get("kind") == "grid-pub" or c.get("kind") == "scenario":
             scs = [c["sc"]]
     else:
@@ -774,6 +974,12 @@ def run(ctx):
     ctx.compare("real publishes end to end: per-request outcome (answered / failed before / executed but answer lost) in "
                 "arrival order -> result, bookkeeping sets, and the slots that hold the new version on disk",
                 acc["rpc_cases"], acc["rpc_impl"], ctx.model(acc["rpc_lines"]))
+    if not ctx.replay:
+        run_wire(ctx, list(WIRE_CORPUS) + [gen_wire(ctx.rng) for _ in range(0 if corpus_only() else ctx.budget(150, 2000))])
+        for psc in PARTITION_CORPUS:
+            run_partition(ctx, dict(psc))
+        for _ in range(0 if corpus_only() else ctx.budget(25, 400)):
+            run_partition(ctx, gen_partition(ctx.rng))
     # publish()/update(): one write proxy per goal entry (real set-up code, both formats, creation and update)
     wl, wi, wc = [], [], []
     from allmydata.mutable.servermap import ServerMap
